@@ -234,6 +234,7 @@ def run_c17(res, tier, seed):
             run_e2e_nested(res, f"{base}/nested{k}", random.Random(seed * 1000 + 300 + k))
         for k in range(2 if tier == "quick" else 12):
             run_e2e_manifest(res, f"{base}/manifest{k}", random.Random(seed * 1000 + 500 + k), "C17")
+            run_e2e_late_dependency(res, f"{base}/late{k}", random.Random(seed * 1000 + 560 + k), "C17")
         for k in range(2 if tier == "quick" else 12):
             run_e2e_chain(res, f"{base}/chain{k}", random.Random(seed * 1000 + 800 + k))
         for k in range(2 if tier == "quick" else 12):
@@ -406,6 +407,52 @@ def run_e2e_manifest(res, tb, rng, prop):
                     c.notify("textDocument/didClose", {"textDocument": {"uri": toml_uri}})
                 history.append(f"gleam.toml {label} ({how})")
                 if not ask(f"gleam.toml {label}, re-read ({how})"):
+                    return
+    finally:
+        c.close()
+
+
+def run_e2e_late_dependency(res, tb, rng, prop):
+    """the dependencies arrive AFTER the server has loaded the workspace (`gleam deps download` / `gleam add` run behind the
+    editor's back, no file event reaches the server): when the editor then opens a module under build/packages, that module
+    belongs to a dependency - navigable, not editable."""
+    def w(path, text):
+        os.makedirs(os.path.dirname(path), exist_ok=True)
+        open(path, "w").write(text)
+    dep = rng.choice(["dep", "gleam_stdlib", "zlib"])
+    listed = rng.random() < 0.5         # is the dependency already in gleam.toml when the server starts?
+    with_dep = f'name = "app"\nversion = "1.0.0"\n\n[dependencies]\n{dep} = "~> 1.0"\n'
+    without = 'name = "app"\nversion = "1.0.0"\n\n[dependencies]\n'
+    dep_src = "pub fn hello() {\n  1\n}\n\npub fn twice() {\n  hello() + hello()\n}\n"
+    app_src = "pub fn main() {\n  1\n}\n"
+    w(f"{tb}/gleam.toml", with_dep if listed else without)
+    w(f"{tb}/src/app.gleam", app_src)
+    dep_path = f"{tb}/build/packages/{dep}/src/{dep}.gleam"
+    dep_uri, app_uri = "file://" + dep_path, "file://" + f"{tb}/src/app.gleam"
+    key = "C17/late-dependency-is-local" if prop == "C17" else "C08/symbol-of-late-dependency-renameable"
+    c = lsp.Lsp(tb)
+    try:
+        if c.initialize() is None:
+            return
+        c.notify("textDocument/didOpen", {"textDocument": {"uri": app_uri, "languageId": "gleam", "version": 1, "text": app_src}})
+        r = c.request("textDocument/prepareRename", {"textDocument": {"uri": app_uri}, "position": {"line": 0, "character": 8}}, timeout=30)
+        res.cov["evaluations"] += 1
+        if r is None or not r.get("result"):
+            return      # the session did not come up; nothing to say
+        if not listed:
+            w(f"{tb}/gleam.toml", with_dep)
+        w(f"{tb}/build/packages/{dep}/gleam.toml", f'name = "{dep}"\nversion = "1.0.0"\n')
+        w(dep_path, dep_src)
+        c.notify("textDocument/didOpen", {"textDocument": {"uri": dep_uri, "languageId": "gleam", "version": 1, "text": dep_src}})
+        for (line, col, where) in ((0, 8, "its definition"), (5, 3, "a use inside the dependency")):
+            pos = {"textDocument": {"uri": dep_uri}, "position": {"line": line, "character": col}}
+            for method, params in (("textDocument/prepareRename", pos), ("textDocument/rename", dict(pos, newName="greet"))):
+                r = c.request(method, params, timeout=30)
+                res.cov["evaluations"] += 1
+                if r is not None and "error" not in r and (r.get("result") is not None):
+                    res.add_violation(key, f"{method.split('/')[1]} at {where} of `hello`, defined in build/packages/{dep} (downloaded after the server had loaded the workspace; "
+                                      f"{'listed in gleam.toml from the start' if listed else 'added to gleam.toml afterwards'}; no file events), is accepted",
+                                      {"tree": tb, "dependency": dep, "listed_at_start": listed, "request": {"method": method, "params": params}, "answer": r})
                     return
     finally:
         c.close()
